@@ -209,16 +209,61 @@ Qed.
 
 (* ================================================================== 6. header path *)
 
-(* hdr_lookup_agrees (full statement, NOT proved here): for a header whose table has one row per
-   FDE sorted by initial address with correct FDE addresses, over disjoint non-wrapping FDE ranges,
-     hdr_fde_for_address dbg hb h c sec a = fde_for_address dbg c sec a
-   and unwind_info_for_address uses that FDE.
-   Proved: bsearch_spec (the row chosen), and soundness of the header path for EVERY header,
-   table and section below. Missing: completeness, i.e. that fde_from_offset at an FDE's offset
-   re-reads the FDE the iterator reported (suffix invariant of the iterator) and the
-   disjointness argument; the agreement of the three paths is checked by the harness oracle of
-   streams c05.hdr / c05.look on every run. *)
-Theorem hdr_lookup_agrees_partial : forall dbg hb h c sec a fd,
+(* for a well-formed header (wf_hdr: table strictly sorted by location, one row per FDE holding its
+   initial address and eh_frame_ptr + its offset; FDE ranges neither wrap nor overlap) over a
+   section whose traversal completes and whose FDEs all parse, the binary-search path returns
+   exactly what the linear search returns, for EVERY address: the same FDE, or
+   NoUnwindInfoForAddress for both *)
+Theorem hdr_lookup_agrees : forall dbg hb h c sec a items fds size o0 rows locs extra tfds e,
+  asz_ok (sc_asz c) ->
+  entries_all dbg c sec = Ok (items, None) ->
+  parsed_fdes dbg c sec items = Some fds ->
+  wf_hdr dbg hb h fds size o0 rows locs extra tfds e ->
+  hdr_fde_for_address dbg hb h c sec a = fde_for_address dbg c sec a.
+Proof. exact hdr_lookup_agrees_lem. Qed.
+
+Example hdr_lookup_agrees_instance :
+  asz_ok (sc_asz ex_cfg) /\
+  (exists items, entries_all true ex_cfg ex_sec = Ok (items, None) /\
+                 parsed_fdes true ex_cfg ex_sec items = Some ex_fds) /\
+  wf_hdr true no_bases ex_hdr2 ex_fds 4 12 ex_rows2 [3907; 8228] [] (rev ex_fds) 4096 /\
+  (exists f, hdr_fde_for_address true no_bases ex_hdr2 ex_cfg ex_sec 8240 = Ok f /\ fd_off f = 28) /\
+  hdr_fde_for_address true no_bases ex_hdr2 ex_cfg ex_sec 5000 = Err ENoUnwindInfoForAddress.
+Proof.
+  split; [right; right; right; reflexivity|].
+  split; [eexists; split; [vm_compute; reflexivity|vm_compute; reflexivity]|].
+  split.
+  { constructor.
+    - reflexivity.
+    - repeat constructor.
+    - discriminate.
+    - reflexivity.
+    - rewrite app_nil_r. reflexivity.
+    - split; [reflexivity|]. intros i r H.
+      destruct i as [|[|i]]; cbn in H; try (injection H as <-; vm_compute; reflexivity).
+      destruct i; discriminate.
+    - vm_compute. reflexivity.
+    - intros i j Hij Hj. cbn [length] in Hj.
+      destruct j as [|[|j]]; try lia; destruct i as [|i]; try lia; vm_compute; reflexivity.
+    - reflexivity.
+    - reflexivity.
+    - intros i r f Hr Hf. destruct i as [|[|i]]; cbn in Hr, Hf.
+      + injection Hr as <-. injection Hf as <-. split; vm_compute; reflexivity.
+      + injection Hr as <-. injection Hf as <-. split; vm_compute; reflexivity.
+      + destruct i; discriminate.
+    - intros f Hf. apply in_rev. exact Hf.
+    - intros f Hf. apply in_rev in Hf. exact Hf.
+    - intros f Hf. destruct Hf as [<-|[<-|[]]]; vm_compute; reflexivity.
+    - intros i j fi fj Hij Hi Hj.
+      destruct j as [|[|j]]; [lia| |destruct j; discriminate].
+      destruct i as [|i]; [|lia]. cbn in Hi, Hj. injection Hi as <-. injection Hj as <-.
+      vm_compute. discriminate. }
+  split; [eexists; split; [vm_compute; reflexivity|reflexivity]|vm_compute; reflexivity].
+Qed.
+
+(* soundness of the header path for EVERY header, table and section (no well-formedness): what it
+   returns is the FDE found at the offset the chosen row designates, and that FDE covers the address *)
+Theorem hdr_path_sound : forall dbg hb h c sec a fd,
   asz_ok (sc_asz c) ->
   hdr_fde_for_address dbg hb h c sec a = Ok fd ->
   exists p o, hdr_lookup dbg hb h a = Ok p /\ pointer_to_offset dbg h p = Ok o /\
